@@ -266,7 +266,7 @@ func (h *hist) step() {
 func runHistory(r *vh.Run, i int) {
 	rng := r.Rand(i)
 	kind := []vh.StoreKind{vh.Mem, vh.Dir}[i%2]
-	u := vh.GenUniverse(rng, vh.UOpts{Algs: (i/2)%2 == 0, NArtifact: 6 + rng.Intn(5), Tag: fmt.Sprint(i)})
+	u := vh.GenUniverse(rng, vh.UOpts{Algs: (i/2)%2 == 0, NArtifact: 6 + rng.Intn(5), OddAT: (i/4)%2 == 1, Tag: fmt.Sprint(i)})
 	if i%5 == 0 {
 		// one artifact whose descriptor alone exceeds small limits
 		big := strings.Repeat("x", 2500)
@@ -284,12 +284,32 @@ func runHistory(r *vh.Run, i int) {
 			u.ByD[a.D] = a
 		}
 	}
+	if (i/4)%2 == 1 {
+		// five more artifacts of one odd type on one subject: filtered answers of that subject span pages
+		var img *vh.Man
+		for _, mm := range u.Mans {
+			if mm.Subject == "" && !mm.Index {
+				img = mm
+				break
+			}
+		}
+		if img != nil {
+			for k := 0; k < 5; k++ {
+				a := vh.MkImage(fmt.Sprintf("aodd%d", k), "sha256", vh.MTImage, u.Blobs[0], vh.MTConfig, nil, img.D, "application/vnd.example.sbom.v1+json", map[string]string{"odd": fmt.Sprint(k), "u": fmt.Sprint(i)})
+				u.Mans = append(u.Mans, a)
+				u.ByD[a.D] = a
+			}
+		}
+	}
 	root := ""
 	if kind != vh.Mem {
 		root = r.TempDir("ref")
 		defer vh.RemoveAll(root)
 	}
 	limit := []int64{700, 1100, 1024, 2048, 4 << 20}[rng.Intn(5)]
+	if (i/4)%2 == 1 && limit > 1100 {
+		limit = 900 // the histories with odd artifact types are about filtered answers of several pages
+	}
 	c := vh.Conf(kind, root, vh.Neutral)
 	c.API.Referrer.Limit = limit
 	srv := vh.New(c)
